@@ -7,6 +7,8 @@ Lemma all_results_tied_true : all_results_tied = true.
 Proof. vm_compute. reflexivity. Qed.
 Lemma lookup_keys_may_be_unsized_true : lookup_keys_may_be_unsized = true.
 Proof. vm_compute. reflexivity. Qed.
+Lemma lookup_keys_unconstrained_true : lookup_keys_unconstrained = true.
+Proof. vm_compute. reflexivity. Qed.
 Lemma no_static_bounds_true : no_static_bounds = true.
 Proof. vm_compute. reflexivity. Qed.
 Lemma borrow_rows_many : 30 <= borrow_rows.
@@ -34,9 +36,9 @@ Qed.
 
 Lemma split_pair_rejected :
   row_tied {| g_file := ""; g_ty := "HashMap"; g_trait := ""; g_name := "get_key_value"; g_line := 0%N;
-              g_self := "m"; g_guards := ["g"]; g_ret_lts := ["m"; "g"]; g_outlives := [("g", "m")]; g_q_sized := false;
+              g_self := "m"; g_guards := ["g"]; g_ret_lts := ["m"; "g"]; g_outlives := [("g", "m")]; g_q_sized := false; g_key_lts := [];
               g_ret := ""; g_borrow := true; g_static := false |} = false /\
   row_tied {| g_file := ""; g_ty := "HashMap"; g_trait := ""; g_name := "get_key"; g_line := 0%N;
-              g_self := "m"; g_guards := ["g"]; g_ret_lts := ["m"]; g_outlives := [("g", "m")]; g_q_sized := false;
+              g_self := "m"; g_guards := ["g"]; g_ret_lts := ["m"]; g_outlives := [("g", "m")]; g_q_sized := false; g_key_lts := [];
               g_ret := ""; g_borrow := true; g_static := false |} = true.
 Proof. vm_compute. split; reflexivity. Qed.
